@@ -160,6 +160,28 @@ class Session:
                 continue
             seen_keys.add(key)
             vio_records.append(rec)
+        # undecided obligations: the solver gave no verdict, so there is no counter-model to replay -- but the obligation's own native
+        # search may still find a failing input on the real code; a confirmed one is a violation in its own right (never the reverse:
+        # a search that finds nothing leaves the obligation undecided)
+        tried_native = set()
+        for r in undecided:
+            fn = r.ob.info.get('replay')
+            key0 = r.ob.name.split('#')[0]
+            if fn is None or key0 in seen_keys or id(fn) in tried_native or len(tried_native) >= 4:
+                continue
+            tried_native.add(id(fn))
+            try:
+                out = fn({}, r.ob)
+            except Exception:       # noqa
+                out = None
+            if out and out.get('confirmed'):
+                rec = {'property': self.prop, 'obligation': r.ob.name, 'function': r.ob.func, 'kind': r.ob.kind, 'backend': r.backend,
+                       'solver_model': {}, 'trail': r.ob.info.get('trail'), 'source': self.functions,
+                       'note': 'the solver left this obligation undecided; the failing input below was found by the obligation\'s native search'}
+                rec.update(out)
+                if self._match_known(rec, my_known) is None:
+                    seen_keys.add(key0)
+                    vio_records.append(rec)
         for nv in self.native_violations:
             kf = self._match_known(nv, my_known)
             if kf is not None:
